@@ -7,10 +7,22 @@
      width k                     2 * ceil(k / 2): the source numbers k samples need
      std_row ops n src r         the r-th vector of n standard normals taken from src
      affine ops mean L z         mean + L z
-   A source iterator is the list of numbers it will still yield; every draw returns the rest. *)
+     inner ops xs ys             sum_j xs_j ys_j
+     C17PD.real_closed_field / carrier / rcf_ops / cov_symmetric / cov_posdef
+                                 any real closed field F (mathcomp rcfType), its dictionary with
+                                 sqrt = Num.sqrt, cov[i][j] = cov[j][i], 0 < x^T cov x for x <> 0
+   A source iterator is the list of numbers it will still yield; every draw returns the rest.
+   Session 3 additions: C17_pdf_real_shape (positive, symmetric, maximal at the mean),
+   C17_draw_doc_counts (k / k + 1 numbers, present <-> available, both
+   directions), C17_std_row_values, C17_affine_entry, C17_mv_draw_real (the multivariate clause over
+   the reals in one statement), C17_mv_draw_absent_no_factor, C17_mv_draw_absent_not_posdef,
+   C17_mv_draw_present_iff_posdef (absent for a non-positive-definite covariance, stated for the
+   draw itself).
+   Limits: K1 (0 samples: the library panics, the model returns None); the rcf theorems have no
+   constructed instance (none installed, as in C08); floats are not modelled. *)
 From Coq Require Import List Arith NArith ZArith Reals.
 From EasyML Require Import Base.Sx Model.Num Model.Stats Model.Gaussian Proofs.C14P Proofs.RealOps Proofs.C17P Proofs.C17R Proofs.C17Chol.
-From EasyML Require Model.Decomp Proofs.C08P5.
+From EasyML Require Model.Decomp Model.LinAlg Proofs.C08P2 Proofs.C08P5 Proofs.C17PD.
 Import ListNotations.
 Local Close Scope R_scope.
 Local Open Scope nat_scope.
@@ -170,6 +182,103 @@ Theorem C17_mv_constructors : forall R (meanm cov : list (list R)) (mean : list 
    (length cov = length (hd [] cov) -> length mean = length cov -> mvt_new mean cov = Ok (mean, cov))).
 Proof. intros R meanm cov mean. split; [exact (mv_new_spec meanm cov) | exact (mvt_new_spec mean cov)]. Qed.
 
+(* ---- session 3 ---- *)
+(* what the documentation of `probability` promises, over the reals, for every mean and every
+   variance > 0: positive everywhere, symmetric about the mean, largest at the mean *)
+Theorem C17_pdf_real_shape : forall mean var : R, (0 < var)%R ->
+  let p := probability Rops (mkGaussian mean var) in
+  (forall x, (0 < p x)%R) /\ (forall d, p (mean + d)%R = p (mean - d)%R) /\
+  (forall x, (p x <= p mean)%R) /\ p mean = (1 / sqrt (2 * PI * var))%R.
+Proof. exact pdf_real_shape. Qed.
+
+(* the documented counts: k source numbers for an even k, k + 1 for an odd k; present exactly when
+   that many are available, absent (everything consumed) exactly when not — both directions *)
+Theorem C17_draw_doc_counts : forall R (ops : numops R) (g : gaussian) (src : list R) (k : nat),
+  let needed := if Nat.even k then k else k + 1 in
+  width k = needed /\
+  ((exists l, fst (draw ops g src (N.of_nat k)) = Some l) <-> needed <= length src) /\
+  (fst (draw ops g src (N.of_nat k)) = None <-> length src < needed) /\
+  (needed <= length src -> length (snd (draw ops g src (N.of_nat k))) = length src - needed) /\
+  (length src < needed -> snd (draw ops g src (N.of_nat k)) = []).
+Proof. intros R ops g src k. split; [exact (width_doc k) | exact (draw_doc_counts ops g src k)]. Qed.
+
+(* the standard normals of sample row r of a multivariate draw, as a function of the source *)
+Theorem C17_std_row_values : forall R (ops : numops R) (n : nat) (src : list R) (r : nat) (d : R),
+  (r + 1) * width n <= length src ->
+  length (std_row ops n src r) = n /\
+  forall i,
+  (2 * i < n -> nth (2 * i) (std_row ops n src r) d =
+     fst (box_muller ops (standard_normal ops) (nth (r * width n + 2 * i) src d)
+                                                (nth (r * width n + 2 * i + 1) src d))) /\
+  (2 * i + 1 < n -> nth (2 * i + 1) (std_row ops n src r) d =
+     snd (box_muller ops (standard_normal ops) (nth (r * width n + 2 * i) src d)
+                                                (nth (r * width n + 2 * i + 1) src d))).
+Proof. exact @std_row_values. Qed.
+
+(* entry i of mean + L z is mean_i + sum_j L_ij z_j (inner = the textbook inner product) *)
+Theorem C17_affine_entry : forall R (ops : numops R), is_field ops ->
+  forall (mean : list R) (L : list (list R)) (z : list R) (i : nat),
+  i < length mean -> i < length L ->
+  nth i (affine ops mean L z) (nzero ops) =
+  nadd ops (nth i mean (nzero ops)) (inner ops (nth i L []) z).
+Proof. exact @affine_entry. Qed.
+
+(* THE MULTIVARIATE CLAUSE OVER THE REALS, in one statement: a present draw has k rows; row r is
+   mean + L z_r entry by entry, L the Cholesky routine's factor of the covariance, z_r made of
+   sqrt(-2 ln u) cos(2 pi v) / sqrt(-2 ln u) sin(2 pi v) for consecutive source pairs (u, v), each
+   row starting a fresh pair *)
+Theorem C17_mv_draw_real : forall (mean : list R) (cov : list (list R)) (src : list R)
+    (k ns nf : nat) d0 d1 rows rest,
+  length mean = length cov ->
+  draw_tensor_samples Rops mean cov src (N.of_nat k) ns nf = (Some (d0, d1, rows), rest) ->
+  let n := length mean in
+  let w := width n in
+  exists L, cholesky Rops cov = Some L /\ length rows = k /\
+  forall r, r < k ->
+    exists z, length z = n /\
+      (forall j, 2 * j < n ->
+         nth (2 * j) z 0%R = (sqrt (-2 * ln (nth (r * w + 2 * j) src 0))
+                              * cos (2 * PI * nth (r * w + 2 * j + 1) src 0))%R) /\
+      (forall j, 2 * j + 1 < n ->
+         nth (2 * j + 1) z 0%R = (sqrt (-2 * ln (nth (r * w + 2 * j) src 0))
+                                  * sin (2 * PI * nth (r * w + 2 * j + 1) src 0))%R) /\
+      (forall i, i < n ->
+         nth i (nth r rows []) 0%R = (nth i mean 0 + inner Rops (nth i L []) z)%R).
+Proof. exact mv_draw_real. Qed.
+
+(* ABSENT FOR A NON-POSITIVE-DEFINITE COVARIANCE, any dictionary that is an ordered field with
+   square roots (C08's hypotheses): a covariance with no Cholesky factor in C08's sense — L L^T
+   with a positive diagonal is positive definite, so this includes every covariance that is not
+   positive definite — or a non-square one makes the draw absent with nothing consumed, for every
+   number of samples and every names *)
+Theorem C17_mv_draw_absent_no_factor : forall R (ops : numops R) (lt : R -> R -> Prop)
+    (mean : list R) (cov : list (list R)) (src : list R) (k : N) (ns nf : nat),
+  C08P5.ordered_sqrt_field ops lt ->
+  (~ exists L, C08P5.cholesky_factor ops lt cov L) \/ LinAlg.mrows cov <> LinAlg.mcols cov ->
+  draw_tensor_samples ops mean cov src k ns nf = (None, src).
+Proof. exact @mv_draw_absent_no_factor. Qed.
+
+(* ... and with positive definiteness itself (0 < x^T cov x for every x <> 0, C17PD.cov_posdef),
+   over EVERY real closed field F with sqrt = F's square root and F's order (C17PD.rcf_ops):
+   a symmetric covariance that is not positive definite makes the draw absent; and with distinct
+   names, at least one sample and enough source numbers the draw of a symmetric square
+   covariance is present EXACTLY when the covariance is positive definite *)
+Theorem C17_mv_draw_absent_not_posdef : forall (F : C17PD.real_closed_field)
+    (mean : list (C17PD.carrier F)) (cov : list (list (C17PD.carrier F)))
+    (src : list (C17PD.carrier F)) (k : N) (ns nf : nat),
+  C17PD.cov_symmetric cov -> ~ C17PD.cov_posdef cov ->
+  draw_tensor_samples (C17PD.rcf_ops F) mean cov src k ns nf = (None, src).
+Proof. exact C17PD.mv_draw_absent_not_posdef. Qed.
+
+Theorem C17_mv_draw_present_iff_posdef : forall (F : C17PD.real_closed_field)
+    (mean : list (C17PD.carrier F)) (cov : list (list (C17PD.carrier F)))
+    (src : list (C17PD.carrier F)) (k ns nf : nat),
+  LinAlg.mrows cov = LinAlg.mcols cov -> C17PD.cov_symmetric cov -> ns <> nf -> 0 < k ->
+  k * width (length mean) <= length src ->
+  ((exists t rest, draw_tensor_samples (C17PD.rcf_ops F) mean cov src (N.of_nat k) ns nf = (Some t, rest))
+   <-> C17PD.cov_posdef cov).
+Proof. exact C17PD.mv_draw_present_iff_posdef. Qed.
+
 (* non-vacuity: the reals satisfy the density hypotheses (that is C17_pdf_real); on the executable
    prime-field dictionary a draw of 3 samples takes 4 of 5 numbers, runs dry on 3, and a
    2-dimensional multivariate draw of 2 samples yields a 2 x 2 result using 4 numbers *)
@@ -187,6 +296,20 @@ Proof.
   - do 2 eexists. vm_compute. repeat split; reflexivity.
 Qed.
 
+(* non-vacuity of the session-3 statements: C08's hypotheses hold for Coq's reals; on the
+   executable prime-field dictionary a covariance whose first pivot is 0 is refused with nothing
+   consumed; 3 samples need 4 numbers, 4 need 4; inner [1;2] [3;4] = 11.  (The two theorems over
+   `C17PD.real_closed_field` quantify over every real closed field; as in C08 no instance is
+   constructed here — none is installed — their oracle-free content is carried by
+   C17_mv_draw_absent_no_factor, whose hypotheses the reals satisfy.) *)
+Example C17_nonvacuous_session3 :
+  C08P5.ordered_sqrt_field C08P2.Rops Rlt /\
+  draw_tensor_samples Fpops [5; 6]%Z [[0; 1]; [1; 3]]%Z [2; 3; 5; 7]%Z 2%N 0 1 = (None, [2; 3; 5; 7]%Z) /\
+  width 3 = 4 /\ width 4 = 4 /\ inner Fpops [1; 2]%Z [3; 4]%Z = 11%Z.
+Proof.
+  split; [exact C08P5.Rops_ordered_sqrt_field|]. vm_compute. repeat split; reflexivity.
+Qed.
+
 Print Assumptions C17_pdf.
 Print Assumptions C17_pdf_real.
 Print Assumptions C17_approximating.
@@ -201,3 +324,11 @@ Print Assumptions C17_mv_draw_genuine_factor.
 Print Assumptions C17_draw_values_real.
 Print Assumptions C17_mv_matrix_tensor_agree.
 Print Assumptions C17_mv_constructors.
+Print Assumptions C17_pdf_real_shape.
+Print Assumptions C17_draw_doc_counts.
+Print Assumptions C17_std_row_values.
+Print Assumptions C17_affine_entry.
+Print Assumptions C17_mv_draw_real.
+Print Assumptions C17_mv_draw_absent_no_factor.
+Print Assumptions C17_mv_draw_absent_not_posdef.
+Print Assumptions C17_mv_draw_present_iff_posdef.
